@@ -397,3 +397,110 @@ def rand_outdir_spelling(r, base, leaf="out"):
         os.makedirs(os.path.join(base, "other"), exist_ok=True)
         return "../" + leaf, os.path.join(base, "other")
     return os.path.join(base, ".", leaf) + "/", "/"
+
+
+# ---- model mutation (C02/C03: evolution of a model between generations)
+
+def _rename_in_tt(tt, col_set, old, new):
+    for row in tt:
+        for c in col_set:
+            if row[c] == old:
+                row[c] = new
+
+
+def mutate_sm(r, m):
+    m = copy.deepcopy(m)
+    tt = m["tt"]
+    op = r.randrange(9)
+    taken = {x for row in tt for x in row}
+    if op == 0 and len(tt) > 1:
+        del tt[r.randrange(1, len(tt))]
+        what = "remove-row"
+    elif op == 1:
+        states = [row[0] for row in tt]
+        evs = [row[1] for row in tt]
+        tt.insert(r.randrange(1, len(tt) + 1), [r.choice(states), r.choice(evs), r.choice(states + ["None"]),
+                                                names(r, "On", 1, taken)[0], r.choice(["None", names(r, "Guard", 1, taken)[0]])])
+        what = "add-row"
+    elif op == 2:
+        old = r.choice([row[0] for row in tt])
+        _rename_in_tt(tt, (0, 2), old, names(r, "State", 1, taken)[0])
+        what = "rename-state"
+    elif op == 3:
+        old = r.choice([row[1] for row in tt])
+        new = names(r, "Event", 1, taken)[0]
+        _rename_in_tt(tt, (1,), old, new)
+        m["iface"]["structs"] = [((new if s == old else s), mem) for s, mem in m["iface"]["structs"]]
+        what = "rename-event"
+    elif op == 4:
+        acts = [row[3] for row in tt if row[3] and row[3].lower() != "none"]
+        if acts:
+            _rename_in_tt(tt, (3,), r.choice(acts), names(r, "On", 1, taken)[0])
+        what = "rename-action"
+    elif op == 5:
+        gs = [row[4] for row in tt if row[4] and row[4].lower() != "none"]
+        if gs:
+            _rename_in_tt(tt, (4,), r.choice(gs), names(r, "Guard", 1, taken)[0])
+        else:
+            tt[r.randrange(len(tt))][4] = names(r, "Guard", 1, taken)[0]
+        what = "rename-or-add-guard"
+    elif op == 6 and len(tt) > 2:
+        rest = tt[1:]
+        r.shuffle(rest)
+        tt[1:] = rest
+        what = "reorder-rows"
+    elif op == 7:
+        m["iface"] = rand_iface_spec(r, tt, m["backend"])
+        what = "change-event-parameters"
+    else:
+        i = r.randrange(len(tt))
+        tt[i][3] = r.choice(["None", names(r, "On", 1, taken)[0]])
+        tt[i][4] = "None"
+        what = "drop-guard-change-action"
+    return m, what
+
+
+def mutate_proto(r, m):
+    m = copy.deepcopy(m)
+    op = r.randrange(5)
+    if op == 0 and len(m["msgs"]) > 1:
+        del m["msgs"][r.randrange(len(m["msgs"]))]
+        what = "remove-message"
+    elif op == 1:
+        used = {i for _, i, _ in m["msgs"]}
+        mid = next(i for i in range(200, 400) if i not in used)
+        m["msgs"].append(("Msg" + camel(r, 2) + "New", mid, [("m0", r.choice(PROTO_PRIM), None)]))
+        what = "add-message"
+    elif op == 2 and m["msgs"]:
+        i = r.randrange(len(m["msgs"]))
+        n, mid, mem = m["msgs"][i]
+        m["msgs"][i] = (n + "Renamed", mid, mem)
+        what = "rename-message"
+    elif op == 3 and m["msgs"]:
+        i = r.randrange(len(m["msgs"]))
+        n, mid, mem = m["msgs"][i]
+        mem = list(mem)
+        if mem and r.random() < 0.5:
+            del mem[r.randrange(len(mem))]
+        else:
+            mem.append(("extra%d" % len(mem), r.choice(PROTO_PRIM), str(r.randint(0, 9))))
+        m["msgs"][i] = (n, mid, mem)
+        what = "change-members"
+    else:
+        m["msgs"] = list(reversed(m["msgs"]))
+        what = "reorder-messages"
+    return m, what
+
+
+def mutate_uml(r, m):
+    m = copy.deepcopy(m)
+    m["dclspc"] = r.choice(["", "MY_EXPORT", "OTHER_API"])
+    return m, "change-export-macro"
+
+
+def mutate_model(r, m):
+    if m["kind"] == "sm":
+        return mutate_sm(r, m)
+    if m["kind"] == "proto":
+        return mutate_proto(r, m)
+    return mutate_uml(r, m)
